@@ -63,7 +63,7 @@ func (c *OCSPRevocationChecker) IsRevoked(clientCertificate *x509.Certificate, v
 			if output == nil {
 				continue
 			}
-			ocspResponse, err := c.parseOcspResponse(certCandidates, output, ocspServer)
+			ocspResponse, err := c.parseOcspResponse(clientCertificate, certCandidates, output, ocspServer)
 			if err != nil {
 				c.logger.Debug("failed to parse ocsp server response", zap.String("ocsp_server", ocspServer), zap.Error(err))
 				continue
@@ -106,20 +106,37 @@ func (c *OCSPRevocationChecker) calculateEvictionTime(response *ocsp.Response) t
 	}
 }
 
-func (c *OCSPRevocationChecker) parseOcspResponse(certCandidates []*core.CertificateChainEntry, output []byte, ocspServer string) (*ocsp.Response, error) {
-	ocspResponse, err := ocsp.ParseResponse(output, nil)
-	if err == nil {
-		return ocspResponse, nil
-	}
+func (c *OCSPRevocationChecker) parseOcspResponse(clientCertificate *x509.Certificate, certCandidates []*core.CertificateChainEntry, output []byte, ocspServer string) (*ocsp.Response, error) {
+	//a response only counts if it is a successful response for exactly this certificate whose signature
+	//verifies under the issuer (or under a responder certificate the issuer issued for OCSP signing)
 	for _, certCandidate := range certCandidates {
-		ocspResponse, err := ocsp.ParseResponse(output, certCandidate.Certificate)
+		ocspResponse, err := ocsp.ParseResponseForCert(output, clientCertificate, certCandidate.Certificate)
 		if err != nil {
 			c.logger.Debug("failed to parse ocsp server response", zap.String("ocsp_server", ocspServer), zap.Error(err))
+			continue
+		}
+		if !isAuthorizedResponder(ocspResponse, certCandidate.Certificate) {
+			c.logger.Debug("ocsp response was signed by a certificate which is not authorized for ocsp signing", zap.String("ocsp_server", ocspServer))
 			continue
 		}
 		return ocspResponse, nil
 	}
 	return nil, errors.New("unable to parse ocsp response with any certificate available")
+}
+
+func isAuthorizedResponder(ocspResponse *ocsp.Response, issuer *x509.Certificate) bool {
+	responder := ocspResponse.Certificate
+	if responder == nil || bytes.Equal(responder.Raw, issuer.Raw) {
+		//signed by the issuer itself
+		return true
+	}
+	//delegated responder (signature by the issuer was checked while parsing): needs id-kp-OCSPSigning, see RFC 6960 4.2.2.2
+	for _, usage := range responder.ExtKeyUsage {
+		if usage == x509.ExtKeyUsageOCSPSigning {
+			return true
+		}
+	}
+	return false
 }
 
 func (c *OCSPRevocationChecker) Provision(ocspConfig *config.OCSPConfig, logger *zap.Logger) error {
